@@ -146,32 +146,32 @@ theorem contained_joinSlash {cs : List Bytes} (hne : cs ≠ []) (h : GoodComps c
 /-! ### Tree-consistent views -/
 
 /-- The view is a tree of directories and regular files in which the lookup
-    table and the children tables say the same thing. `skip` names one key
-    that is registered but not yet connected to its directory (the state in
-    the middle of `add`); `[]`, which is never a key, stands for "none". -/
-structure TreeOK (skip : Bytes) (fs : FS) : Prop where
+    table and the children tables say the same thing. `skip` lists the keys
+    that are registered but not yet connected to their directory (the state in
+    the middle of `add`). -/
+structure TreeOK (skip : List Bytes) (fs : FS) : Prop where
   inv : Inv fs
   root : fs.get? dotP = some 0
   plain : ∀ i, (fs.ino i).kind = .dir ∨ (fs.ino i).kind = .reg
   named : ∀ k i, fs.get? k = some i → (fs.ino i).name = k ∧ i < fs.inodes.length
   kinds : ∀ k i, fs.get? k = some i →
     ((fs.ino i).kind = .dir ∧ ∃ cs, (fs.ino i).children = some cs) ∨
-    ((fs.ino i).kind = .reg ∧ (fs.ino i).children = none)
-  up : ∀ k i, fs.get? k = some i → k ≠ dotP → k ≠ skip →
-    ∃ j cs, fs.get? (dirOf k) = some j ∧ dirOf k ≠ skip ∧ (fs.ino j).kind = .dir ∧
+    ((fs.ino i).kind = .reg ∧ (fs.ino i).children = none ∧ ∃ d, (fs.ino i).data = some d)
+  up : ∀ k i, fs.get? k = some i → k ≠ dotP → k ∉ skip →
+    ∃ j cs, fs.get? (dirOf k) = some j ∧ dirOf k ∉ skip ∧ (fs.ino j).kind = .dir ∧
       (fs.ino j).children = some cs ∧ i ∈ cs
   down : ∀ k j cs, fs.get? k = some j → (fs.ino j).children = some cs →
-    ∀ c ∈ cs, ∃ k', fs.get? k' = some c ∧ k' ≠ dotP ∧ k' ≠ skip ∧ dirOf k' = k
+    ∀ c ∈ cs, ∃ k', fs.get? k' = some c ∧ k' ≠ dotP ∧ k' ∉ skip ∧ dirOf k' = k
 
-theorem TreeOK.contained {skip : Bytes} {fs : FS} (h : TreeOK skip fs) {k : Bytes} {i : Nat}
+theorem TreeOK.contained {skip : List Bytes} {fs : FS} (h : TreeOK skip fs) {k : Bytes} {i : Nat}
     (hk : fs.get? k = some i) : Contained k :=
   h.inv.get hk
 
 /-- In a tree-consistent view the child scan of walkTo finds exactly the
     entry the lookup table has for the name. -/
-theorem TreeOK.findChild_some {skip : Bytes} {fs : FS} (h : TreeOK skip fs) {done : List Bytes} {n : Bytes} {cur c : Nat}
+theorem TreeOK.findChild_some {skip : List Bytes} {fs : FS} (h : TreeOK skip fs) {done : List Bytes} {n : Bytes} {cur c : Nat}
     (hg : GoodComps (done ++ [n])) (hcur : fs.get? (pathOf done) = some cur)
-    (hc : fs.get? (joinSlash (done ++ [n])) = some c) (hskip : joinSlash (done ++ [n]) ≠ skip) :
+    (hc : fs.get? (joinSlash (done ++ [n])) = some c) (hskip : joinSlash (done ++ [n]) ∉ skip) :
     fs.findChild cur n = some c := by
   have hb_ne : joinSlash (done ++ [n]) ≠ dotP := joinSlash_ne_dot (by simp) hg
   obtain ⟨j, cs, hj, _, _, hcs, hmem⟩ := h.up _ c hc hb_ne hskip
@@ -201,7 +201,7 @@ theorem TreeOK.findChild_some {skip : Bytes} {fs : FS} (h : TreeOK skip fs) {don
     cases hc
     rfl
 
-theorem TreeOK.findChild_none {skip : Bytes} {fs : FS} (h : TreeOK skip fs) {done : List Bytes} {n : Bytes} {cur : Nat}
+theorem TreeOK.findChild_none {skip : List Bytes} {fs : FS} (h : TreeOK skip fs) {done : List Bytes} {n : Bytes} {cur : Nat}
     (hg : GoodComps (done ++ [n])) (hcur : fs.get? (pathOf done) = some cur)
     (hc : fs.get? (joinSlash (done ++ [n])) = none) : fs.findChild cur n = none := by
   unfold FS.findChild
@@ -226,10 +226,10 @@ theorem TreeOK.findChild_none {skip : Bytes} {fs : FS} (h : TreeOK skip fs) {don
 
 
 /-- Every proper, non-empty prefix of a connected key is the (connected) key of a directory. -/
-theorem TreeOK.prefix_dir {skip : Bytes} {fs : FS} (h : TreeOK skip fs) :
+theorem TreeOK.prefix_dir {skip : List Bytes} {fs : FS} (h : TreeOK skip fs) :
     ∀ (suf pre : List Bytes) (i : Nat), GoodComps (pre ++ suf) → pre ≠ [] → suf ≠ [] →
-      fs.get? (joinSlash (pre ++ suf)) = some i → joinSlash (pre ++ suf) ≠ skip →
-      ∃ c, fs.get? (joinSlash pre) = some c ∧ (fs.ino c).kind = .dir ∧ joinSlash pre ≠ skip := by
+      fs.get? (joinSlash (pre ++ suf)) = some i → joinSlash (pre ++ suf) ∉ skip →
+      ∃ c, fs.get? (joinSlash pre) = some c ∧ (fs.ino c).kind = .dir ∧ joinSlash pre ∉ skip := by
   intro suf
   induction hn : suf.length generalizing suf with
   | zero =>
@@ -243,7 +243,7 @@ theorem TreeOK.prefix_dir {skip : Bytes} {fs : FS} (h : TreeOK skip fs) :
     subst hdec
     have hg' : GoodComps ((pre ++ s') ++ [y]) := by simpa [List.append_assoc] using hg
     have hk' : fs.get? (joinSlash ((pre ++ s') ++ [y])) = some i := by simpa [List.append_assoc] using hk
-    have hsk' : joinSlash ((pre ++ s') ++ [y]) ≠ skip := by simpa [List.append_assoc] using hsk
+    have hsk' : joinSlash ((pre ++ s') ++ [y]) ∉ skip := by simpa [List.append_assoc] using hsk
     obtain ⟨j, cs, hj, hjs, hkind, _, _⟩ := h.up _ i hk' (joinSlash_ne_dot (by simp) hg') hsk'
     rw [dirOf_snoc hg'] at hj hjs
     have hne : pre ++ s' ≠ [] := by simp [hpre]
@@ -269,10 +269,10 @@ theorem joinSlash_done (done : List Bytes) (n : Bytes) :
 
 /-- walkTo without create follows the lookup table: it arrives exactly at
     the names that are (connected) keys. -/
-theorem TreeOK.walkLoop_none {skip : Bytes} {fs : FS} (h : TreeOK skip fs) :
+theorem TreeOK.walkLoop_none {skip : List Bytes} {fs : FS} (h : TreeOK skip fs) :
     ∀ (rest done : List Bytes) (cur : Nat), GoodComps (done ++ rest) →
       fs.get? (pathOf done) = some cur →
-      (∀ pre suf, done ++ rest = pre ++ suf → pre ≠ [] → joinSlash pre ≠ skip) →
+      (∀ pre suf, done ++ rest = pre ++ suf → pre ≠ [] → joinSlash pre ∉ skip) →
       (∀ i, fs.get? (pathOf (done ++ rest)) = some i →
         walkLoop none fs cur (joinSlash done) done.isEmpty rest = (fs, .ok i)) ∧
       (fs.get? (pathOf (done ++ rest)) = none →
@@ -289,9 +289,9 @@ theorem TreeOK.walkLoop_none {skip : Bytes} {fs : FS} (h : TreeOK skip fs) :
     have hg2 : GoodComps ((done ++ [n]) ++ rest) := by simpa [List.append_assoc] using hg
     have hfull : pathOf (done ++ n :: rest) = joinSlash ((done ++ [n]) ++ rest) := by
       simp [pathOf, List.append_assoc]
-    have hskb : joinSlash (done ++ [n]) ≠ skip := hsk (done ++ [n]) rest (by simp) (by simp)
-    have hskfull : joinSlash ((done ++ [n]) ++ rest) ≠ skip := hsk _ [] (by simp) (by simp)
-    have hsk' : ∀ pre suf, (done ++ [n]) ++ rest = pre ++ suf → pre ≠ [] → joinSlash pre ≠ skip :=
+    have hskb : joinSlash (done ++ [n]) ∉ skip := hsk (done ++ [n]) rest (by simp) (by simp)
+    have hskfull : joinSlash ((done ++ [n]) ++ rest) ∉ skip := hsk _ [] (by simp) (by simp)
+    have hsk' : ∀ pre suf, (done ++ [n]) ++ rest = pre ++ suf → pre ≠ [] → joinSlash pre ∉ skip :=
       fun pre suf e hp => hsk pre suf (by simpa [List.append_assoc] using e) hp
     simp only [walkLoop, joinSlash_done]
     cases hb : fs.get? (joinSlash (done ++ [n])) with
@@ -333,8 +333,8 @@ theorem TreeOK.walkLoop_none {skip : Bytes} {fs : FS} (h : TreeOK skip fs) :
 
 /-- `getInode` is a lookup for every name none of whose prefixes is the
     unconnected key. -/
-theorem TreeOK.getInode_eq {skip : Bytes} {fs : FS} (h : TreeOK skip fs) {p : Bytes} (hp : Contained p)
-    (hsk : ∀ pre suf, splitSlash p = pre ++ suf → pre ≠ [] → joinSlash pre ≠ skip) :
+theorem TreeOK.getInode_eq {skip : List Bytes} {fs : FS} (h : TreeOK skip fs) {p : Bytes} (hp : Contained p)
+    (hsk : ∀ pre suf, splitSlash p = pre ++ suf → pre ≠ [] → joinSlash pre ∉ skip) :
     getInode fs p = match fs.get? p with
       | some i => .ok i
       | none => .error .notexist := by
@@ -369,9 +369,6 @@ theorem TreeOK.getInode_eq' {fs : FS} (h : TreeOK [] fs) {p : Bytes} (hp : Conta
     simp [show validPath dotP = true by decide, show clean dotP = dotP by decide, h.root]
   · apply h.getInode_eq hp
     intro pre suf e hpre
-    obtain ⟨hg, _, _⟩ := goodComps_of_contained hp hd
-    have hgp : GoodComps pre := fun x hx => hg x (by rw [e]; simp [hx])
-    obtain ⟨x, rest, hj, _⟩ := joinSlash_head_ne hpre hgp
-    rw [hj]; simp
+    simp
 
 end ClairModel.TarFS
